@@ -331,6 +331,14 @@ OPERANDS = [
     ('pattern', "[ñ, 'é']"), ('pattern', "{'ü': ñ, **é}"), ('pattern', 'Ç(ñ, é=ü)'), ('pattern', "'ñ' | é"), ('pattern', 'ñ as é'), ('arguments', 'ñ, *é, ü'), ('arguments', 'ñ, é'),
     ('_arglikes', 'ñ, *é, ü=ö'), ('_withitems', 'ñ as é, ü'), ('_aliases', 'ñ as é, ü.ö'), ('_type_params', 'Ñ, *É'), ('keyword', 'ñ=é'), ('stmt', "ñ = 'é'"), ('exec', "'é'; "), ('Tuple', "'é', ñ"),
     ('_Assign_targets', 'ñ = é ='), ('_decorator_list', '@ñ\n@é(ü)'), ('_comprehension_ifs', "if 'é' if ñ"), ('MatchSequence', "ñ, 'é'"), ('Set', "{'é'}"), ('List', "['é']"),
+    # multiplicities: two and three of every repeated element (keywords, keys, operands, dotted parts), also spread over lines
+    ('pattern', 'C(x=1, y=2)'), ('pattern', 'C(a, x=1, y=b, z=[c])'), ('pattern', 'm.C(\n x=1,\n y=2,\n)'), ('pattern', 'C(D(p=1, q=2), r=E(s=3, t=4))'), ('pattern', '{1: a, 2: b, 3: c}'),
+    ('pattern', '{1: a, 2: b, **r}'), ('pattern', 'a | b | c | d'), ('pattern', '[a, b, c, *d]'), ('pattern', 'p.q.r.s'), ('pattern', 'C(a, b, c)'),
+    ('expr', 'f(x=1, y=2, z=3)'), ('expr', 'f(a, *b, k=1, j=2, **c)'), ('expr', 'f(\n x=1,\n y=2,\n)'), ('expr', '{1: a, 2: b, 3: c}'), ('expr', 'C(D(p=1, q=2), r=E(s=3, t=4))'),
+    ('expr', 'p.q.r.s'), ('expr', 'a | b | c | d'), ('expr', 'p . q \\\n . r'), ('_arglikes', 'a, b, x=1, y=2, z=3'), ('_arglikes', 'x=1, *a, y=2, z=3, w=4'),
+    ('_aliases', 'a.b.c, d.e.f.g as h'), ('_Import_names', 'a.b.c.d'), ('alias', 'a.b.c'), ('alias', 'a.b.c.d as e'), ('_withitems', 'a as b, c as d, e'), ('_type_params', 'T, U: int, *V, **W'),
+    ('arguments', 'a, b, /, c, d, *e, f, g=1, **h'), ('_decorator_list', '@a\n@b.c.d\n@e(f=1, g=2)'), ('_comprehensions', 'for a in b for c in d for e in f'), ('_comprehension_ifs', 'if a if b if c'),
+    ('_Assign_targets', 'a = b = c ='),
 ]
 MODES = ['expr', 'pattern', 'Tuple', 'List', 'Set', 'stmt', 'stmts', 'exec', 'Expr', '_arglikes', '_arglike', 'arguments', 'arguments_lambda', '_withitems', 'withitem', '_aliases', 'alias',
          '_Import_names', '_ImportFrom_names', '_Assign_targets', '_decorator_list', '_type_params', 'type_param', 'Dict', 'MatchMapping', 'keyword', 'arg', '_comprehension_ifs',
